@@ -646,12 +646,26 @@ def run(ctx):
 
 
 MANIFEST = dict(
-    technique="Coq proof about the model of ct_name/ct_name_position and of both getctype implementations + "
-              "correspondence on both FFIs + gcc oracle",
-    text="Theorems (C08/Props.v): the name position is a hole (inserting composes with the type constructors), "
-         "ffi_getctype and FFI.getctype compute the same text for every type and replacement, the marker test "
-         "'&[' holds exactly for arrays. Correspondence: cname/getctype models vs both FFIs, round trips through "
-         "typeof, gcc accepts `getctype(T,'v');` with the right size.",
-    note="Trusted: Coq kernel; hand model C08/Model.v (tied by differential testing); gcc. Re-parsing theorem "
-         "relies on the C07 parser model and is proved for the C07 sub-grammar only (partial).",
+    technique="Coq proof about the model of ct_name/ct_name_position, an independent precedence-based declarator "
+              "printer, both getctype implementations and model.get_c_name (literals and the array-name buffer size "
+              "regenerated from the sources) + correspondence on both FFIs + gcc oracle",
+    text="Theorems (C08/Props.v): C08_position_is_hole - for every ctype T and text x, ct_name with x inserted at "
+         "ct_name_position is decl_string T x, the C declaration of T around x printed by an independent outside-in "
+         "printer with C's precedence rule (C08/Spec.v); C08_getctype_is_spec - ffi_getctype is that printer applied to "
+         "the stripped text ('*' texts as pointer declarators); C08_getctype_c_eq_py and C08_get_c_name_eq_getctype - "
+         "ffi_getctype (C), FFI.getctype (Python) and model.get_c_name (Python type objects) compute the same text for "
+         "all T and x; C08_marker_test - the '&[' test holds exactly for arrays; C08_array_length_rendered_in_full and "
+         "C08_array_name_buffer_suffices - an array length is printed with all its digits (reads back as the same "
+         "number, any 64-bit length) and the regenerated buffer `char extra_text[N]` of new_array_type holds it. "
+         "NOT a theorem in general: the round trip itself - typeof(getctype(T)) is T and typeof(getctype(T, x)) is the type "
+         "x builds over T - is decided by correspondence on both FFIs (random C07 types x suffixes, array lengths around "
+         "every power of ten up to sys.maxsize), plus the gcc oracle for `getctype(T,'v');` with sizeof. "
+         "C08_reparse_keyword_types / C08_typeof_getctype_keyword_types DO prove the first sentence, "
+         "c_typeof (getctype(T)) = T, for the C-side parser model of coq/C07 (composition with C07.Agree.agree_partial) on "
+         "the class Proofs5.kw_type: void, the keyword primitives _Bool..long double, pointers and arrays with a length, "
+         "in any nesting; function types, named types, open arrays, the Python parser and non-empty x remain "
+         "correspondence-only.",
+    note="Trusted: Coq kernel; hand model C08/Model.v of the name construction (tied by differential testing against "
+         "ct.cname on both FFIs); shape-checked literal extraction for FFI.getctype / model.get_c_name / qualify / "
+         "new_array_type's buffer; gcc. The re-parsing half relies on the real parsers in the correspondence runs.",
     design_ref="DESIGN.md §4 C08")
